@@ -157,12 +157,14 @@ PROPS.update({
                 "with random dense depth / byte classes / start kind on sampled haystacks and spans, anchored and "
                 "unanchored. evaluations = product walks + end-to-end comparisons; states/transitions = reachable "
                 "pairs / compared transitions. Non-trivial: a product with more than 3 pairs, or an end-to-end case "
-                "with a match.",
+                "with a match. Both parts run twice: in the release build and in the overflow-checked build with "
+                "debug assertions (stage 'checked'), where a representation that the search loops' internal "
+                "assertions reject shows as a panic on one side of the differential.",
         "assumptions": COMMON_ASSUMPTIONS[1:] + [
             "equal match observables on all reachable pairs imply equal results of every search loop because the loops "
             "consume only start_state/next_state/is_special/is_dead/is_match/match_len/match_pattern/pattern_len",
             "product walks are capped at 200000 pairs per variant (cap hits are counted; none on the pinned tree)"],
-        "stages": {"quick": NATIVE, "thorough": NATIVE},
+        "stages": {"quick": NATIVE_AND_CHECKED, "thorough": NATIVE_AND_CHECKED},
         "coverage_map": {"states": "product_pairs", "transitions": "product_transitions"},
         "floors": {"quick": {"conversion_routes_built": 300, "huge_automata_lists": 8, "product_transitions": 100_000_000, "product_pairs": 400_000,
                              "e2e_compared_top-auto": 5000, "e2e_compared_low-dfa": 5000,
@@ -202,14 +204,18 @@ PROPS.update({
                 "twice (prefilter on / off). Haystacks up to ~4 KiB and vector-shaped lengths with decoys (pattern bytes "
                 "sprinkled everywhere, adjacent matches, truncated matches at the end) x spans. Compared: find, "
                 "find_iter, earliest (found or not), overlapping iterator and stepping (standard), is_match. The variant "
-                "in use is read from the prefilter's Debug output; 'skipped_<variant>' counts cases where the hook "
+                "in use is classified by the prefilter's behaviour on probe haystacks (no type names); "
+                "'skipped_<variant>' counts cases where the hook "
                 "counter shows fewer automaton transitions with the prefilter than without. Non-trivial: a prefilter is "
-                "active and a match exists.",
+                "active and a match exists. One list in ten has one or two common start bytes with a rare byte of its "
+                "own per pattern (the rare-byte analysis runs out of budget while a start-byte prefilter stays "
+                "possible), and one list in six holds the empty pattern (last, first or anywhere), which rules a "
+                "prefilter out.",
         "assumptions": COMMON_ASSUMPTIONS[1:] + [
             "which occurrence an earliest-mode search returns is not fixed by the semantics (a packed prefilter confirms "
             "the full leftmost match), so earliest is compared as found/not-found here; C14 checks its validity"],
         "stages": {"quick": NATIVE, "thorough": NATIVE},
-        "floors": {"quick": {"gap_cases": 60, "long_haystacks": 2000, "evaluations": 500_000, "distinct_nontrivial": 200_000,
+        "floors": {"quick": {"lists_with_the_empty_pattern": 2000, "gap_cases": 60, "long_haystacks": 2000, "evaluations": 500_000, "distinct_nontrivial": 200_000,
                              "variant_Memmem": 30_000, "variant_StartBytesOne": 20_000, "variant_StartBytesTwo": 30_000,
                              "variant_StartBytesThree": 8_000, "variant_RareBytesOne": 40_000,
                              "variant_RareBytesTwo": 25_000, "variant_RareBytesThree": 8_000, "variant_Packed": 60_000,
@@ -289,14 +295,17 @@ PROPS.update({
                 "further after it (a caller treating the fault as transient): all matches yielded before and after "
                 "the error must still be a prefix of matches*, and if the iteration then ends after the reader's end "
                 "of stream it must equal matches*; an iterator that only repeats the error is accepted. "
-                "A case = one injected fault; every one is distinct.",
+                "A case = one injected fault; every one is distinct. A writer that stops ACCEPTING bytes - Ok(0) for a "
+                "non-empty buffer, once at write call k (every k) or for good once a fixed capacity is used up (like "
+                "&mut [u8]; capacities 0, 1, half and all-but-one of the fault-free output) - is a failed write by "
+                "Write::write_all's contract: the call must return an error and the accepted bytes be a prefix of out*.",
         "assumptions": COMMON_ASSUMPTIONS[1:] + [
             "fault positions are enumerated exhaustively per (stream, schedule, capacity); streams and schedules are sampled",
             "the error kind reaching the caller is not required to equal the injected kind, only that an error is reported"],
         "exhaustive": False,
         "exhaustive_note": "fault positions exhaustive per case; cases sampled",
         "stages": {"quick": NATIVE, "thorough": NATIVE},
-        "floors": {"quick": {"consecutive_read_faults_injected": 150_000, "evaluations": 1_500_000, "read_faults_injected_find": 500_000,
+        "floors": {"quick": {"writes_accepting_nothing_injected": 400_000, "fixed_capacity_sinks": 120_000, "consecutive_read_faults_injected": 150_000, "evaluations": 1_500_000, "read_faults_injected_find": 500_000,
                              "read_faults_injected_replace": 500_000, "write_faults_injected": 400_000,
                              "read_faults_surfaced_in_rolling_cases": 400_000,
                              "iterations_resumed_after_fault": 300_000},
@@ -315,7 +324,10 @@ PROPS.update({
                 "the boundary, leaves all results unchanged; (4) start=end+1 yields nothing; (5) the same span given through "
                 "Input::range(s..e), range(s..=e-1), range(..e), range(s..) and set_start/set_end gives the same try_find "
                 "result. Same for "
-                "packed::Searcher::find_in in all packed variants. Non-trivial: a proper sub-span with a match.",
+                "packed::Searcher::find_in in all packed variants. Non-trivial: a proper sub-span with a match. The Input "
+                "objects handed to the searchers have a history: before the wanted settings they were configured for "
+                "something else - a span to the left of the wanted one, or (when the wanted span is then set by one "
+                "call) to the right of it with a gap - and only the last setting may count.",
         "assumptions": COMMON_ASSUMPTIONS[1:],
         "stages": {"quick": NATIVE_AND_CHECKED, "thorough": NATIVE_AND_CHECKED},
         "floors": {"quick": {"long_haystacks": 5000, "evaluations": 3_000_000, "distinct_nontrivial": 300_000, "outside_rewrites": 1_000_000,
@@ -354,13 +366,16 @@ PROPS.update({
                 "spliced by the monitor (for &str APIs after dropping matches whose bounds are not char boundaries) and "
                 "compared with replace_all, replace_all_bytes, replace_all_with, replace_all_with_bytes (try_ forms); "
                 "closure call logs must equal the match list and the matched text; results must be valid UTF-8; no "
-                "panic. Non-trivial: at least one match.",
+                "panic. Non-trivial: at least one match. What the closure appends varies per case: a marker around the "
+                "replacement, the bare replacement (which may be empty), or nothing at all - also in the call that "
+                "returns false (the match is then deleted and the remainder starts behind it).",
         "assumptions": COMMON_ASSUMPTIONS[1:] + ["the searcher's own find_iter is the given (C01/C02 decide its correctness)"],
         "stages": {"quick": NATIVE, "thorough": NATIVE},
         "floors": {"quick": {"evaluations": 1_000_000, "distinct_nontrivial": 200_000,
                              "cases_with_non_boundary_matches": 100_000, "cases_with_empty_matches": 15_000,
                              "haystacks_of_1_kib_or_more": 5_000,
-                             "closure_stopped_early": 40_000},
+                             "closure_stopped_early": 40_000, "closure_stopped_without_appending": 6000,
+                             "closures_appending_nothing": 25_000},
                    "thorough": {"evaluations": 40_000_000}},
         "timeout": T_DEFAULT,
     },
@@ -489,10 +504,14 @@ PROPS.update({
                 "::builder(), packed::Searcher::new / Builder::new / Config::default) are compared with the default "
                 "builders; the packed builder must return None (never panic) for no patterns, an empty pattern or more "
                 "than 128 patterns. evaluations = builds + id probes + convenience sets. "
-                "Non-trivial: collections with at least 2 patterns.",
+                "Non-trivial: collections with at least 2 patterns. An explicitly requested kind is checked twice: "
+                "kind() must name it, and memory_usage() must not be exactly that of a hand-built low-level automaton "
+                "of ANOTHER kind with the same options while differing from the requested kind's (in practice it "
+                "equals the requested kind's: tally requested_kind_confirmed_by_heap_usage); every kind x start kind "
+                "x match kind cell is built for 1, 3, 100, 101 and 130 patterns.",
         "assumptions": COMMON_ASSUMPTIONS[1:] + ["the documented size limits (2^31 states etc.) are not approached"],
         "stages": {"quick": NATIVE, "thorough": NATIVE},
-        "floors": {"quick": {"builders_with_setter_history": 80, "packed_match_kind_reads": 40, "builder_reuse_builds": 500, "packed_builder_reuse_cases": 150, "big_dense_builds": 4, "metadata_read_through_reference_type": 2000, "evaluations": 40_000, "distinct_nontrivial": 8000, "pattern_id_probes": 30_000,
+        "floors": {"quick": {"explicit_kind_matrix_cells": 135, "requested_kind_confirmed_by_heap_usage": 3000, "builders_with_setter_history": 80, "packed_match_kind_reads": 40, "builder_reuse_builds": 500, "packed_builder_reuse_cases": 150, "big_dense_builds": 4, "metadata_read_through_reference_type": 2000, "evaluations": 40_000, "distinct_nontrivial": 8000, "pattern_id_probes": 30_000,
                              "built_top-auto": 1000, "built_low-dfa": 1000, "built_low-cnfa": 1000,
                              "shape_thousands_of_random_patterns": 200, "shape_no_patterns": 500,
                              "convenience_constructor_sets": 500},
@@ -514,7 +533,9 @@ PROPS.update({
                 "interpreter built with +ssse3,+avx2 so that all Teddy variants run; (3) 'asan': exact-size heap "
                 "haystacks in an AddressSanitizer build. Every stage also asserts start<=end<=len, pattern<patterns_len, "
                 "match inside span, and absence of panics. One evaluation = one (searcher, placed haystack, span) on "
-                "which all calls completed under the observer; all are distinct by construction.",
+                "which all calls completed under the observer; all are distinct by construction. Every other list is "
+                "also searched as a contiguous NFA resp. DFA converted (build_from_noncontiguous) from a separately "
+                "built noncontiguous NFA by a builder whose own options differ.",
         "assumptions": COMMON_ASSUMPTIONS[1:] + [
             "guard pages and ASan red zones miss reads that land inside another live mapping/object; Miri does not but runs fewer cases",
             "Miri runs the Teddy code only because the harness is built with -Ctarget-feature=+ssse3,+avx2"],
